@@ -274,12 +274,12 @@ def gen_cases(tier):
     for s in product_strs(STR_ALPHA[:8], 2):
         cases.append(('E', s, '', 0))
     for s in product_strs(ID_ALPHA, n_ex):
-        for fl in (0, 2, 4, 6, 1):
+        for fl in (0, 2, 4, 6, 1, 8, 14):
             if fl in (0, 6) or rnd.random() < 0.25:
                 cases.append(('I', s, rnd.choice(K_BARE), fl))
         cases.append(('P', s, rnd.choice(K_BARE), 0))
         if rnd.random() < 0.3:
-            cases.append(('T', s, rnd.choice(K_BARE), rnd.choice((0, 1))))
+            cases.append(('T', s, rnd.choice(K_BARE), rnd.choice((0, 1, 2, 3))))
     for s in product_strs(PGID_ALPHA, n_ex):
         cases.append(('i', s, rnd.choice(K_PGID), rnd.choice((0, 0, 2, 1))))
     for t in itertools.chain.from_iterable(itertools.product(BYTE_ALPHA, repeat=n) for n in range(n_ex + 1)):
@@ -294,9 +294,10 @@ def gen_cases(tier):
     pgkw = [''.join(map(chr, w)) for w, _ in G.get('g_pg_keywords', [])]
     for w in QL_WORDS + from_kw:
         for v in sorted({w, w.upper(), w.capitalize(), w + '_', w[:-1] + w[-1:].upper()}):
-            for fl in (0, 2, 4, 6):
+            for fl in (0, 2, 4, 6, 8, 10):
                 cases.append(('I', v, rnd.choice(K_BARE), fl))
             cases.append(('P', v, rnd.choice(K_BARE), 0))
+            cases.append(('T', 'std::' + v, rnd.choice(K_BARE), rnd.choice((0, 2))))
             cases.append(('X', v + rnd.choice(K_BARE + [" by", " only", "'x'", '`'])  , '', 0))
     for w in PG_WORDS + pgkw:
         for v in sorted({w, w.upper(), w.capitalize(), w + '_'}):
@@ -335,12 +336,12 @@ def gen_cases(tier):
             s = ''.join(ch for ch in s if ch.isalnum() or ch == '_') or 'a'
         r = rnd.random()
         if r < 0.4:
-            cases.append(('I', s, rnd.choice(K_BARE), rnd.randrange(8)))
+            cases.append(('I', s, rnd.choice(K_BARE), rnd.randrange(16)))
         elif r < 0.55:
             cases.append(('P', s, rnd.choice(K_BARE), 0))
         elif r < 0.65:
             cases.append(('T', '::'.join(rand_str(rnd, 5, w) or 'a' for _ in range(rnd.randint(1, 3))),
-                          rnd.choice(K_BARE), rnd.choice((0, 1))))
+                          rnd.choice(K_BARE), rnd.choice((0, 1, 2, 3))))
         elif r < 0.9:
             cases.append(('i', s, rnd.choice(K_PGID), rnd.randrange(4)))
         else:
@@ -547,7 +548,7 @@ def coq_expr(case):
     if fn == 'B':
         return f'let o := ql_visit_bytes {a} in (Some o, ql_lex1 U0 (o ++ {kk}))'
     if fn == 'I':
-        return (f'let o := ql_quote_ident U0 {b(fl & 1)} {b(fl & 2)} {b(fl & 4)} {a} in '
+        return (f'let o := ql_quote_ident U0 {b(fl & 1)} {b(fl & 2)} {b(fl & 4)} {b(not (fl & 8))} {a} in '
                 f'(Some o, ql_lex1 U0 (o ++ {kk}))')
     if fn == 'P':
         return f'let o := ql_param_to_str U0 {a} in (Some o, ql_lex1 U0 (o ++ {kk}))'
